@@ -390,6 +390,22 @@ func runCase(line string, n int) (out string) {
 		return as(av, a[1], held)
 	case "ordef":
 		return show(ordef(av, a[1], a[2:]))
+	case "jsonscan":
+		var target any
+		err := av.JSONScan(&target)
+		if err == errStored {
+			return "err stored"
+		}
+		if av.Err == nil {
+			switch held.(type) {
+			case string, []byte:
+				return "ok jsonscan" // json.Unmarshal of the held bytes is outside the model (ok or a JSON error)
+			}
+		}
+		if err != nil {
+			return "err other"
+		}
+		return "ok jsonscan-unexpected"
 	}
 	return "badcase"
 }
